@@ -247,7 +247,15 @@ func genTok(optionMode string) func(ctx *Ctx) {
 				if kind == 2 {
 					cfg = csvCfgs[ctx.Rnd.Intn(len(csvCfgs))]
 				}
-				for _, b := range pickBits() {
+				bits := pickBits()
+				if ctx.Thorough && optionMode == "all" && !strings.HasPrefix(tag, "exhaustive") {
+					// all 128 option sets on the exhaustive short inputs; 16 of them (none, all, 14 drawn) on every other input
+					bits = []int{0, 127}
+					for i := 0; i < 14; i++ {
+						bits = append(bits, ctx.Rnd.Intn(128))
+					}
+				}
+				for _, b := range bits {
 					ctx.Count(tag + ":" + tokNames[kind])
 					ctx.Input(tokInput(kind, b, text, cfg), tokNontrivial(text))
 				}
@@ -349,7 +357,7 @@ func init() {
 	register(&Prop{ID: "C04", Gen: genTok("none"), Run: runTok("C04"), Human: tokHuman,
 		Rule: "strings over the alphabet {letters, digits, . - / * \" ' < > = ! { } # , ; space tab CR LF, e-acute, CJK, emoji, U+FFFF, _ ( e +}: exhaustive up to length 2 (quick) / 3 (thorough) and random strings up to length ~16 built from characters and multi-character fragments, on the four tokenizers (CSV under four separator/quote configurations) with no option enabled; non-trivial = at least two character classes; distinct by input hash"})
 	register(&Prop{ID: "C15", Gen: genTok("all"), Run: runTok("C15"), Human: tokHuman,
-		Rule: "the C04 input space x option combinations: quick = {none, all, 6 random} per input, thorough = all 128 per input; the four tokenizers; non-trivial = at least two character classes; distinct by input hash"})
+		Rule: "the C04 input space x option combinations: quick = {none, all, 6 random} per input, thorough = all 128 on every input of length <= 2 over the alphabet and 16 (none, all, 14 drawn) on every other input; the four tokenizers; non-trivial = at least two character classes; distinct by input hash"})
 	register(&Prop{ID: "C12", Gen: genTok("all"), Run: runTok("C12"), Human: tokHuman,
 		Rule: "the C15 input space (multi-line inputs with every line-break style, tokens of every class at every offset, the four tokenizers, option combinations as in C15); every token position is compared with a forward scan of a fresh scanner; non-trivial = at least two character classes; distinct by input hash"})
 }
